@@ -1063,7 +1063,52 @@ def enc_range_round_only(chk, program):
         chk.check(f['conv'] == 'round', 'ROUND', inst, file=UT, line=f['line'], func='encode_number', expected='int(round(value / resolution))', found=f['conv'],
                   detail=f"{len(users)} fields, e.g. {users[0][0].key}:{users[0][1].dbid}")
 
+def help_points(chk, program, rule='HELP-STR'):
+    """two small helpers decided on points by interpreting them (absint) on concrete arguments:
+      decode_bit_lookup on a table with gaps ({1: 'one', 3: 'three', 10: 'ten'}): every named bit that is set is reported, in bit order, whatever the
+        size of the table (raw 1<<10 -> 'ten');
+      decode_string_lau on an empty string (length byte 2: header only) followed by more payload: the text is present (not None) and 16 bits are skipped;
+        on 'AB' (length byte 4): 32 bits skipped.
+    Not interpretable -> no verdict from this clause."""
+    from . import absint as A
+    hs = helpers(program)
+    funcs = {q: f for q, f in program.mod('utils').defs.items() if '.' not in q}
+    menv = A.ModuleEnv(program.mod('utils').tree)
+    fb = hs.get('decode_bit_lookup')
+    if fb is not None:
+        try:
+            table = lambda: A.ADict({1: A.AStr([('lit', 'one')]), 3: A.AStr([('lit', 'three')]), 10: A.AStr([('lit', 'ten')])})
+            bad = []
+            for raw, want in ((0, ''), (1 << 1, 'one'), (1 << 10, 'ten'), ((1 << 1) | (1 << 10), 'one, ten'), ((1 << 3) | (1 << 10), 'three, ten'), (1 << 2, ''), (1 << 12, ''), ((1 << 12) | (1 << 3), 'three')):
+                r = A.Interp(functions=funcs, module=menv).call_function(fb, [A.AInt(raw), table()])
+                got = r.literal() if isinstance(r, A.AStr) else repr(r)
+                if got != want:
+                    bad.append(f"raw {raw:#x}: expected {want!r}, got {got!r}")
+            chk.check(not bad, rule, 'decode_bit_lookup::every-named-bit', file=UT, line=fb.lineno, func='decode_bit_lookup', expected='the names of all set bits the table names, in bit order (tables have gaps)',
+                      found='ok' if not bad else bad[:3], detail='' if not bad else 'set bits beyond the number of table entries (or some other subset) are lost')
+        except (A.Unknown, A.RaiseSignal, AttributeError, TypeError, KeyError) as u:
+            chk.unit('decode_bit_lookup_not_interpretable', f"{type(u).__name__}: {u}"[:160])
+    fl = hs.get('decode_string_lau')
+    if fl is not None:
+        try:
+            bad = []
+            for name, payload, want_skip in (('empty string then more payload', bytes([2, 1, 0x41, 0x42]), 16), ("'AB' then more payload", bytes([4, 1, 0x41, 0x42, 0x43]), 32)):
+                raw = int.from_bytes(payload, 'little')
+                r = A.Interp(functions=funcs, module=menv).call_function(fl, [A.AInt(raw), A.AInt(0)])
+                if not (isinstance(r, (tuple, list)) and len(r) == 2):
+                    raise A.Unknown(f"decode_string_lau does not return a pair: {r!r}"[:100])
+                text, skip = r
+                if text is None:
+                    bad.append(f"{name}: the text comes back as None (absent)")
+                if not (isinstance(skip, A.AInt) and skip.v == want_skip):
+                    bad.append(f"{name}: {skip!r} bits skipped, expected {want_skip}")
+            chk.check(not bad, rule, 'decode_string_lau::points', file=UT, line=fl.lineno, func='decode_string_lau', expected='a text (possibly empty) and a skip of 8 x the length byte',
+                      found='ok' if not bad else bad[:3], detail='' if not bad else 'an empty description is a value, not "not available"; a wrong skip shifts every later field')
+        except (A.Unknown, A.RaiseSignal, AttributeError, TypeError, KeyError) as u:
+            chk.unit('decode_string_lau_not_interpretable', f"{type(u).__name__}: {u}"[:160])
+
 def help_strings(chk, program, rule='HELP-STR'):
+    help_points(chk, program, rule)
     """string helpers: the variable-length (LAU) decoder must report a skip of exactly 8 x its length byte, read from the
     first byte at the field's offset; the fixed decoder extracts exactly BitLength bits"""
     hs = helpers(program)
